@@ -77,6 +77,10 @@ def gate_ABd(name, p):
         u, v = e(pex), e(pin)
         U = 0.5 * np.array([[u * (v - 1), 1j * (1 + v)], [1j * u * (1 + v), 1 - v]])
         return U.tolist(), [[0, 0], [0, 0]], [0, 0]
+    if name == "sMZgate":
+        a, b = e(p[0] - np.pi / 2), e(p[1] - np.pi / 2)
+        U = 0.5 * np.array([[a - b, 1j * (a + b)], [1j * (a + b), b - a]])
+        return U.tolist(), [[0, 0], [0, 0]], [0, 0]
     if name == "S2gate":
         ch, sh = np.cosh(p[0]), np.sinh(p[0])
         return [[ch, 0], [0, ch]], [[0, e(p[1]) * sh], [e(p[1]) * sh, 0]], [0, 0]
@@ -311,4 +315,37 @@ def replay_axes(obligation, I):
         ev, out = run_case((("gate", gate, GATES2[gate], (a, b), False), n, not pure, "C01"))
         return out[0] if out else None
     bat = [{"case": i} for i, c in enumerate(AXIS_CASES) if c[0] <= 3]
+    run_replay(obligation, I, chk, bat)
+
+
+# ----------------------------------------------------------------------------- replay entry for the C02 decomposition contracts
+def replay_decomposition(obligation, I):
+    """counter-model of contracts/c02_fixed.py (class, target modes, register size, dagger, parameter values): the gate is
+    compiled for the gaussian target (which decomposes it) and run from a correlated input; means and covariance are compared
+    with the documented action"""
+    from native.common import run_replay
+
+    def chk(inp):
+        cls, modes, n, dag = inp["cls"], tuple(inp["modes"]), int(inp["n"]), bool(inp["dagger"])
+        npar = int(inp.get("nparams", 1))
+        p = tuple(float(inp.get(f"p{k}", 0.37 + 0.2 * k)) for k in range(npar))
+        ref = Ref(n)
+        prog = sf.Program(n)
+        with prog.context as q:
+            base_circuit(q, n, ref)
+            g = getattr(ops, cls)(*p)
+            (g.H if dag else g) | tuple(q[m] for m in modes)
+            ref.gate(cls, p if p else (np.pi / 2,), list(modes), dagger=dag)
+        st = sf.Engine("gaussian").run(prog.compile(compiler="gaussian")).state
+        mu, V = st.means(), st.cov()
+        err = max(abs(mu - ref.mu).max(), abs(V - ref.V).max())
+        if err > 1e-7:
+            return f"{cls}{p}{'.H' if dag else ''} | {modes} of {n}: the decomposed gate differs from the documented action (max difference {err:.3g} in means / covariance)"
+    bat = []
+    if I:
+        for k in range(6):
+            J = dict(I)
+            for t in range(int(I.get("nparams", 1))):
+                J[f"p{t}"] = 0.3 + 0.37 * k - 0.8 * t
+            bat.append(J)
     run_replay(obligation, I, chk, bat)
